@@ -1576,6 +1576,14 @@ vm_execute_op_mul_arr_type(double, double)
         dv = object_arr_dim_new(2);                                                                 \
         dv[0].elems = m1->dv[0].elems;                                                              \
         dv[1].elems = m2->dv[1].elems;                                                              \
+        if (!object_arr_dim_fits(2, dv))                                                            \
+        {                                                                                           \
+            object_arr_dim_delete(dv);                                                              \
+            print_error_msg(machine->line_no, "improper array size");                               \
+            machine->running = VM_EXCEPTION;                                                        \
+            machine->exception = EXCEPT_NO_ARR_SIZE;                                                \
+            return;                                                                                 \
+        }                                                                                           \
         mres = gc_alloc_arr(machine->collector, 2, dv);                                             \
                                                                                                     \
         unsigned int i, j, k;                                                                       \
@@ -1751,6 +1759,15 @@ void vm_execute_mk_array_num(vm * machine, bytecode * code, param_type value)
             return;
         }
         dv[d].elems = e;
+    }
+
+    if (!object_arr_dim_fits(dims, dv))
+    {
+        object_arr_dim_delete(dv);
+        print_error_msg(machine->line_no, "improper array size");
+        machine->running = VM_EXCEPTION;
+        machine->exception = EXCEPT_NO_ARR_SIZE;
+        return;
     }
 
     array = gc_alloc_arr(machine->collector, dims, dv);
